@@ -435,8 +435,8 @@ def _aiger_t3(kind, make_parser, harnesses):
     })
     return g
 
-_SEC = {"props": ["C06", "C05", "C09", "C04", "C03"], "cost": 4}
-_RT = {"props": ["C03", "C05"], "cost": 5}
+_SEC = {"props": ["C06", "C05", "C09"], "cost": 4}
+_RT = {"props": ["C03"], "cost": 5}
 GROUPS["aiger_ascii_t3"] = _aiger_t3("ascii", GROUPS["aiger_ascii_t2"]["append_text"][-1][1], [
     ("sec_next_input", dict(_SEC, what="ascii next_input from any section state: None iff the declared count is used up (no input touched), else lit(max_lit, assigning) + newline, handed out right after the line")),
     ("sec_next_output", dict(_SEC, what="ascii next_output")),
@@ -464,6 +464,37 @@ GROUPS["aiger_ascii_t3"] = _aiger_t3("ascii", GROUPS["aiger_ascii_t2"]["append_t
     ("rt_comment", dict(_RT, flags=["--default-unwind", "5"], what="ascii write_comment -> comment()")),
     ("reach_ascii_t3", {"kind": "reach", "cost": 3, "what": "vacuity twin"}),
 ])
+
+GROUPS["aiger_binary_t3"] = _aiger_t3("binary", _MAKE_BINARY, [
+    ("sec_next_output", dict(_SEC, what="binary next_output from any section state")),
+    ("sec_next_bad", dict(_SEC, what="binary next_bad_state_property")),
+    ("sec_next_constraint", dict(_SEC, what="binary next_invariant_constraint")),
+    ("sec_next_local_fairness", dict(_SEC, what="binary next_justice_property_local_fairness_constraint")),
+    ("sec_next_fairness", dict(_SEC, what="binary next_fairness_constraint")),
+    ("sec_next_latch", dict(_SEC, what="binary next_latch: next state, optional reset 0 / 1 / the latch's implicit literal; implicit numbering advances by 2")),
+    ("sec_next_and_gate", dict(_SEC, what="binary next_and_gate: first delta relative to the gate's implicit literal, second relative to the first input; output > in0 >= in1")),
+    ("sec_next_justice_size", dict(_SEC, what="binary next_justice_property_size")),
+    ("tr_latches_to_outputs", dict(_SEC, what="section transition latches -> outputs")),
+    ("tr_outputs_to_bad", dict(_SEC, what="section transition outputs -> bad")),
+    ("tr_bad_to_constraints", dict(_SEC, what="section transition bad -> constraints")),
+    ("tr_constraints_to_justice", dict(_SEC, what="section transition constraints -> justice sizes")),
+    ("tr_local_fairness_to_fairness", dict(_SEC, what="section transition local fairness -> fairness")),
+    ("tr_fairness_to_ands", dict(_SEC, what="section transition fairness -> and gates")),
+    ("tr_parser_to_latches_and_justice_sizes", dict(_SEC, what="Parser::latches and justice sizes -> local fairness constraints")),
+    ("tr_ands_to_symbols", dict(_SEC, what="and gates -> symbols, implicit numbering")),
+    ("rt_header", dict(_RT, what="binary write_header -> Parser::new identity for every valid u8 header; writer and parser agree on the first latch/gate literal")),
+    ("rt_header_u64", dict(_RT, props=["C03", "C05"], what="binary header round trip with 64-bit literals (no overflow in writer or parser)")),
+    ("rt_latch", dict(_RT, what="binary write_latch -> next_latch identity, implicit literal in step")),
+    ("rt_and_gate", dict(_RT, what="binary write_and_gate -> next_and_gate: sorted inputs, delta coding relative to the implicit literal")),
+    ("rt_lit_lines_and_count", dict(_RT, what="binary write_lit -> next_output, write_count -> next_justice_property_size")),
+    ("rt_symbol", dict(_RT, what="binary write_symbol -> next_symbol")),
+    ("rt_comment", dict(_RT, flags=["--default-unwind", "5"], what="binary write_comment -> comment()")),
+    ("reach_binary_t3", {"kind": "reach", "cost": 3, "what": "vacuity twin"}),
+])
+GROUPS["aiger_binary_t3"]["inject"] = GROUPS["aiger_binary_t3"]["inject"] + [
+    ("flussab-aiger/src/binary.rs", r"fn write_binary_uint\(&mut self, mut code: usize\) \{\n",
+     "        #[cfg(kani)]\n        if flussab::verif_q::capturing() {\n            return flussab::verif_q::push_bin(code as u64);\n        }\n"),
+]
 
 GROUPS["aiger_binary_rt"] = dict(dict(_MODEL, **_SPEC_INJECT), **{
     "name": "aiger_binary_rt",
@@ -682,7 +713,7 @@ PROPERTIES["C07"] = {
 
 PROPERTIES["C06"] = {
     "level": "model_checking",
-    "groups": ["cnf_token_t0", "aiger_token_t0", "aiger_token_small", "btor2_token_t0", "btor2_token_wide", "text_t0", "cnf_parser_t2", "aiger_ascii_t2", "aiger_binary_t2", "wcnf_parser_t2", "gcnf_parser_t2", "cnf_clause_lits_t1"],
+    "groups": ["cnf_token_t0", "aiger_token_t0", "aiger_token_small", "btor2_token_t0", "btor2_token_wide", "text_t0", "cnf_parser_t2", "aiger_ascii_t2", "aiger_binary_t2", "wcnf_parser_t2", "gcnf_parser_t2", "cnf_clause_lits_t1", "aiger_ascii_t3", "aiger_binary_t3"],
     "claim": "SAT-based bounded model checking of the real number/limit tokenizers on a fully symbolic window against an independent wide-arithmetic reference: a token is accepted iff it is a representable number word within the stated limit, and the returned number equals the decimal number written; T1/T2 harnesses (where present) decide clause-count gating and limit installation from symbolic parser states.",
     "level_note": "Token-level (window N bytes). The optimised digit scanners are replaced by their specification in the quick tier (justified by C13, which proves the real scanners meet it) and run for real in the thorough tier. Message formatting and UTF-8 validation of message text are stubbed (outside the claim).",
     "functions": ["flussab_cnf::token::{uint, int, braced_uint, var_count, uint_count, clause_group}", "flussab_cnf::cnf::Parser::{new, parse_header, next_clause}", "flussab_aiger::token::{uint, binary_uint, delta_code, header_field, lit, symbol_index}", "flussab_aiger::{ascii,binary}::{Header::parse, Parser::new, ParseSymbols::next_symbol}", "flussab_btor2::token::{uint, positive_int, nonnegative_int, required_*_constant}", "flussab::text::{ascii_digits, signed_ascii_digits}"],
@@ -723,7 +754,7 @@ PROPERTIES["C05"] = {
     "level": "model_checking",
     # panic-freedom and progress are checked by every harness of the tokenizer groups
     "all_harnesses": ["cnf_token_t0", "aiger_token_t0", "btor2_token_t0"],
-    "groups": ["text_t0", "cnf_token_t0", "aiger_token_t0", "aiger_token_small", "btor2_token_t0", "btor2_token_wide", "cnf_parser_t2", "aiger_ascii_t2", "aiger_binary_t2", "btor2_parser_t2", "wcnf_parser_t2", "gcnf_parser_t2", "cnf_clause_lits_t1"],
+    "groups": ["text_t0", "cnf_token_t0", "aiger_token_t0", "aiger_token_small", "btor2_token_t0", "btor2_token_wide", "cnf_parser_t2", "aiger_ascii_t2", "aiger_binary_t2", "btor2_parser_t2", "wcnf_parser_t2", "gcnf_parser_t2", "cnf_clause_lits_t1", "aiger_ascii_t3", "aiger_binary_t3"],
     "claim": "Panic/overflow/termination freedom per unit: every harness of the tokenizer and parser-control tiers is checked by CBMC with Rust's checked semantics (arithmetic overflow, slice bounds, unwrap/expect, debug assertions are verification conditions) and with unwinding assertions (every scanner loop exits within the window), from symbolic LineReader/parser states, so error-location arithmetic (position - line_start, count - 1, (I+1)*2, limit -= count) is covered for all values.",
     "level_note": "Absence of overflow in the checked build implies the unchecked build computes the same values. Memory-allocation bounds are OUTSIDE: symbolic allocation sizes exhaust CBMC (the AIGER pre-allocation defect D6 was found by reading and fixed, no check reports it). Stack depth: no recursion in the parsers (not checked by the solver). T2 coverage: cnf next_clause/new, AIGER Header::parse/Parser::new/next_symbol; other control logic only at token level.",
     "functions": ["all token functions of the three format crates", "flussab::text::*", "cnf::Parser::{new,next_clause}", "aiger::{ascii,binary}::{Header::parse, Parser::new, next_symbol}"],
@@ -747,7 +778,7 @@ PROPERTIES["C08"] = {
 
 PROPERTIES["C09"] = {
     "level": "other",
-    "groups": ["reader_step", "text_t0", "cnf_token_t0", "aiger_token_t0", "btor2_token_t0", "btor2_token_wide", "cnf_parser_t2", "aiger_ascii_t2", "aiger_binary_t2", "btor2_parser_t2", "wcnf_parser_t2", "gcnf_parser_t2"],
+    "groups": ["reader_step", "text_t0", "cnf_token_t0", "aiger_token_t0", "btor2_token_t0", "btor2_token_wide", "cnf_parser_t2", "aiger_ascii_t2", "aiger_binary_t2", "btor2_parser_t2", "wcnf_parser_t2", "gcnf_parser_t2", "aiger_ascii_t3", "aiger_binary_t3"],
     "claim": "No read past the completing line, by composition: (1) reader: exactly one successful read per refill, none when buffered data suffices or after end/error (C02 step harnesses on the real reader); (2) tokenizers: a ghost high-water mark of requested offsets proves that line-terminating tokens request nothing beyond the LF and every other token at most one byte beyond itself (fast paths read only buffered bytes); (3) T2: item-returning parser functions return right after the terminating token.",
     "level_note": _COMPOSED_NOTE,
     "functions": ["DeferredReader::{request_more, request, request_byte_at_offset}", "line-terminating tokens of cnf/aiger/btor2", "cnf::Parser::next_clause", "aiger Header::parse / next_symbol"],
@@ -771,7 +802,7 @@ PROPERTIES["C10"] = {
 
 PROPERTIES["C03"] = {
     "level": "other",
-    "groups": ["aiger_binary_rt", "btor2_rt", "writer_digits", "aiger_ascii_t2", "aiger_binary_t2", "btor2_parser_t2"],
+    "groups": ["aiger_binary_rt", "btor2_rt", "writer_digits", "aiger_ascii_t2", "aiger_binary_t2", "btor2_parser_t2", "aiger_ascii_t3", "aiger_binary_t3"],
     "claim": "Round trip decided per entry and by composition, each link a SAT-based bounded model check of real code: (a) binary AIGER 7-bit delta encoding: write_binary_uint -> delta_code/binary_uint is the identity for every value < 2^RT_BITS with exact consumption; (b) BTOR2: every operator name the writer emits is a keyword the parser maps back to the same operator; every constant constructible through the validating TryFrom constructors is read back entirely by the matching constant token; (c) decimal numbers: the writer's integer text is the canonical decimal text of the value (C11 digits harnesses) and the parsers' number tokens return exactly the decimal value of a numeral (C06), so number o text o number = identity; (d) AIGER headers/symbols: the parser's limits do not reject what the writer can produce (T2 header_parse / next_symbol).",
     "level_note": "PARTIAL: whole-line round trips (write_clause -> next_clause, AIGER latch/and-gate lines, BTOR2 Line::write_into -> next_line) were attempted and exhaust CBMC's memory (writer formatting + parser in one query), so line structure (separators, field order) is NOT covered by a solver query; it is covered only by the repository's own round-trip tests. The converse direction parse o write o parse is covered only at token level (leading zeros, -0).",
     "functions": ["flussab_aiger::binary::Writer::write_binary_uint", "flussab_aiger::token::{delta_code, binary_uint}", "flussab_btor2::btor2::{BinaryOp,UnaryOp,TernaryOp}::name", "flussab_btor2::token::{node_token, required_*_constant}", "flussab_btor2::btor2::{BinaryConst,DecimalConst,HexConst}::try_from", "flussab::write::text::ascii_digits", "aiger Header::parse / next_symbol"],
